@@ -14,6 +14,23 @@ Definition header_len_of (sh : list N) : N :=
 Definition file_ok (sh vals : list N) : Prop :=
   shape_ok sh /\ header_len_of sh < 65536 /\ Forall (word_ok 8) vals /\ N.of_nat (length vals) = nelements sh.
 
+(* the guard of the repaired writer is exactly the condition the round-trip theorems need *)
+Lemma header_len_is sh : header_len sh = header_len_of sh.
+Proof. reflexivity. Qed.
+Lemma write_npy_checked_some sh vals b :
+  write_npy_checked sh vals = Some b <-> (header_len_of sh < 65536 /\ b = write_npy sh vals).
+Proof.
+  unfold write_npy_checked. rewrite header_len_is. destruct (N.ltb_spec (header_len_of sh) 65536) as [H|H].
+  - split; [intros E; inversion E; auto | intros [_ ->]; reflexivity].
+  - split; [discriminate | intros [H' _]; exfalso; apply (N.lt_irrefl 65536); eapply N.le_lt_trans; eassumption].
+Qed.
+Lemma write_npy_checked_none sh vals : write_npy_checked sh vals = None <-> 65536 <= header_len_of sh.
+Proof.
+  unfold write_npy_checked. rewrite header_len_is. destruct (N.ltb_spec (header_len_of sh) 65536) as [H|H].
+  - split; [discriminate | intros H'; exfalso; apply (N.lt_irrefl 65536); eapply N.le_lt_trans; eassumption].
+  - split; auto.
+Qed.
+
 Arguments N.add : simpl never.
 Arguments N.sub : simpl never.
 Arguments N.mul : simpl never.
